@@ -567,7 +567,7 @@ def install (p : Plan) (o : Opts) (fs : FS) : St :=
 
 def uninstallLine (cwd : Str) (fs : FS) (line : Str) : FS :=
   if line.head? = some '#' then fs else
-  let f := strip line
+  let f := line            -- `line.rstrip('\n')`: log lines are kept without their terminator
   if f = [] then fs else
   let k := keyOf cwd f
   if k = [] then fs else
